@@ -101,6 +101,14 @@ Outcome runHistory(const Plan & p, Ctx & c)
         return Outcome::fail("differs-from-fresh-converter", fmt("after op #%zu (%s): frame differs from a fresh converter anchored at (%.9Lg, %.9Lg, %.6Lg): "
                  "rotation by %.3g, translation by %.3g m (state left over from the earlier frame)", no, kOpName[op.kind], anchor.lat, anchor.lon, anchor.h, dlin, dtr));
       }
+      // the anchor the converter reports is the one the history says (exactly: it is stored, not computed)
+      {
+        const rc::GeodeticCoordinates & ga = conv->getAnchor();
+        if (ga.latitude != (double)anchor.lat || ga.longitude != (double)anchor.lon || ga.altitude != (double)anchor.h) {
+          return Outcome::fail("anchor-mismatch", fmt("after op #%zu (%s): getAnchor() = (%.17g, %.17g, %.17g), the history says (%.17Lg, %.17Lg, %.17Lg)", no, kOpName[op.kind],
+                   ga.latitude, ga.longitude, ga.altitude, anchor.lat, anchor.lon, anchor.h));
+        }
+      }
       // proper rotation, oriented east / north / up
       Eigen::Matrix3d R = T.linear();
       if (!((R.transpose() * R - Eigen::Matrix3d::Identity()).norm() <= 1e-12) || !(std::fabs(R.determinant() - 1.0) <= 1e-12)) {
@@ -137,6 +145,13 @@ Outcome runHistory(const Plan & p, Ctx & c)
       for (int k = 0; k < 3; ++k) {c.logd(ecef[k]);}
       if (!((ecef - ecefT).norm() <= 1e-6)) {return Outcome::fail("differs-from-fresh-converter", fmt("after op #%zu: toECEF of (%.6g,%.6g,%.6g) differs from a fresh converter's by %.3g m", no, op.e, op.n, op.u, (ecef - ecefT).norm()));}
       if (!(norm(v3(ecef) - em) <= kMillimetre)) {return Outcome::fail("conversion-differs-from-model", fmt("after op #%zu: toECEF of (%.6g,%.6g,%.6g) is %.4Lg m away from the reference geodesy", no, op.e, op.n, op.u, norm(v3(ecef) - em)));}
+      // the three-scalar overloads are the same conversions
+      {
+        Eigen::Vector3d e3 = conv->toECEF(op.e, op.n, op.u); rc::GeodeticCoordinates g3 = conv->toWGS84(op.e, op.n, op.u), gv = conv->toWGS84(ev(lp));
+        if (!((e3 - ecef).norm() <= 1e-9) || !(std::fabs(g3.latitude - gv.latitude) <= 1e-15 && std::fabs(g3.longitude - gv.longitude) <= 1e-15 && std::fabs(g3.altitude - gv.altitude) <= 1e-9)) {
+          return Outcome::fail("scalar-overload-differs", fmt("after op #%zu: toECEF/toWGS84(x, y, z) differ from the vector overloads for (%.6g,%.6g,%.6g)", no, op.e, op.n, op.u));
+        }
+      }
       Eigen::Vector3d back = conv->toENU(ecef);
       if (!((back - ev(lp)).norm() <= (double)kMillimetre)) {return Outcome::fail("round-trip-enu-ecef", fmt("after op #%zu: toENU(toECEF(p)) is %.4g m away from p = (%.6g,%.6g,%.6g)", no, (back - ev(lp)).norm(), op.e, op.n, op.u));}
       rc::GeodeticCoordinates g = conv->toWGS84(ev(lp)); rc::GeodeticCoordinates gt = twin.toWGS84(ev(lp));
